@@ -201,18 +201,13 @@ func decodeString(src *bufio.Reader, noQuotes bool) []byte {
 	if major != majorTypeByteString {
 		panic(fmt.Errorf("Major type is: %d in decodeString", major))
 	}
-	result := []byte{}
-	if !noQuotes {
-		result = append(result, '"')
-	}
 	length := decodeIntAdditionalType(src, minor)
 	len := int(length)
 	pbs := readNBytes(src, len)
-	result = append(result, pbs...)
 	if noQuotes {
-		return result
+		return pbs
 	}
-	return append(result, '"')
+	return quoteJSONString(pbs)
 }
 func decodeStringToDataUrl(src *bufio.Reader, mimeType string) []byte {
 	pb := readByte(src)
@@ -247,12 +242,16 @@ func decodeUTF8String(src *bufio.Reader) []byte {
 	if major != majorTypeUtf8String {
 		panic(fmt.Errorf("Major type is: %d in decodeUTF8String", major))
 	}
-	result := []byte{'"'}
 	length := decodeIntAdditionalType(src, minor)
 	len := int(length)
 	pbs := readNBytes(src, len)
+	return quoteJSONString(pbs)
+}
 
-	for i := 0; i < len; i++ {
+// quoteJSONString returns pbs as a quoted JSON string, escaping what needs to be.
+func quoteJSONString(pbs []byte) []byte {
+	result := []byte{'"'}
+	for i := 0; i < len(pbs); i++ {
 		// Check if the character needs encoding. Control characters, slashes,
 		// and the double quote need json encoding. Bytes above the ascii
 		// boundary needs utf8 encoding.
